@@ -403,6 +403,8 @@ class Check:
             self.run = None
 
     def spec(self, name, cfg, driver, mode, count, **kw):
+        # wall-clock watchdog only (verdicts are bounded by case counts): generous, and much larger in the thorough tier
+        kw["timeout"] = max(kw.get("timeout", 900), 900) * (1 if self.tier == "quick" else 16)
         h = Check._Lazy()
         self.pending.append(((name, cfg, driver, mode, count, kw), h))
         return h
